@@ -662,10 +662,11 @@ class LogWorld:
     PREFIX = ROOT + "/log"
 
     def __init__(self, fs, rule, fields=None, share_init=None, tick=0.125, logger_kw=None,
-                 base="log", tag="x", share_name="mc.x", more_logs=(), more_loggees=()):
+                 base="log", tag="x", share_name="mc.x", more_logs=(), more_loggees=(), unstamped=()):
         """more_logs: further logs in the same logger, (base, rule, fields) on the same share or
         (base, rule, fields, share_name, share_init) on another share (created on demand).
-        more_loggees: further loggees of the FIRST log, (tag, share_name, fields, share_init)."""
+        more_loggees: further loggees of the FIRST log, (tag, share_name, fields, share_init).
+        unstamped: share names whose initial fields are set with Share.change() (stamp stays None)."""
         from ioflo.base import housing, logging as iologging, globaling
         from ioflo.aid.odicting import odict
         housing.House.Clear()
@@ -685,7 +686,7 @@ class LogWorld:
         self.store.changeStamp(0.0)
         self.share = self.store.create(share_name)
         if share_init:
-            self.share.create(odict(share_init))
+            (self.share.change if share_name in unstamped else self.share.create)(odict(share_init))
         self.log = iologging.Log(name=base, store=self.store, kind="text", rule=rule)
         self.log.addLoggee(tag=tag, loggee=share_name, fields=list(fields) if fields else None)
         self.shares = {share_name: self.share}
@@ -693,7 +694,8 @@ class LogWorld:
             if sname2 not in self.shares:
                 self.shares[sname2] = self.store.create(sname2)
                 if init2:
-                    self.shares[sname2].create(odict(init2))
+                    o2 = self.shares[sname2]
+                    (o2.change if sname2 in unstamped else o2.create)(odict(init2))
             self.log.addLoggee(tag=tag2, loggee=sname2, fields=list(fields2) if fields2 else None)
         self.logger.addLog(self.log)
         self.logs = [self.log]
